@@ -20,6 +20,81 @@ fn marks_in(speech: &str) -> Vec<String> {
     re.captures_iter(speech).map(|c| c[1].to_string()).collect()
 }
 
+/// the part of a token's text that survives canonicalization verbatim: no white space, no invisible operators, math
+/// alphanumerics (what a mathvariant turns letters and digits into) folded back to the plain characters, the ASCII
+/// variants of minus, primes, tilde etc. mapped to the characters MathCAT uses
+fn carried_text(t: &str) -> String {
+    t.chars().filter(|c| !c.is_whitespace() && !matches!(*c, '\u{2061}'..='\u{2064}' | '\u{a0}' | '\u{202f}' | '\u{200b}')).map(fold_char).collect()
+}
+
+fn fold_char(c: char) -> char {
+    let cp = c as u32;
+    match cp {
+        0x1D400..=0x1D6A3 => {
+            let i = (cp - 0x1D400) % 52;
+            char::from_u32(if i < 26 { 'A' as u32 + i } else { 'a' as u32 + i - 26 }).unwrap_or(c)
+        }
+        0x1D6A4 => 'i',
+        0x1D6A5 => 'j',
+        0x1D6A8..=0x1D7C9 => {
+            let i = (cp - 0x1D6A8) % 58;
+            match i {
+                17 => '\u{3f4}',
+                0..=24 => char::from_u32(0x391 + i).unwrap_or(c),
+                25 => '\u{2207}',
+                26..=50 => char::from_u32(0x3b1 + i - 26).unwrap_or(c),
+                51 => '\u{2202}',
+                52 => '\u{3f5}',
+                53 => '\u{3d1}',
+                54 => '\u{3f0}',
+                55 => '\u{3d5}',
+                56 => '\u{3f1}',
+                _ => '\u{3d6}',
+            }
+        }
+        0x1D7CE..=0x1D7FF => char::from_u32('0' as u32 + (cp - 0x1D7CE) % 10).unwrap_or(c),
+        _ => match c {
+            '-' => '\u{2212}',
+            '\'' => '\u{2032}',
+            '\u{210e}' => 'h',
+            '\u{212c}' => 'B',
+            '\u{2130}' => 'E',
+            '\u{2131}' => 'F',
+            '\u{210b}' | '\u{210c}' | '\u{210d}' => 'H',
+            '\u{2110}' | '\u{2111}' => 'I',
+            '\u{2112}' => 'L',
+            '\u{2133}' => 'M',
+            '\u{211b}' | '\u{211c}' | '\u{211d}' => 'R',
+            '\u{212f}' => 'e',
+            '\u{210a}' => 'g',
+            '\u{2134}' => 'o',
+            '\u{212d}' | '\u{2102}' => 'C',
+            '\u{2128}' | '\u{2124}' => 'Z',
+            '\u{2115}' => 'N',
+            '\u{2119}' => 'P',
+            '\u{211a}' => 'Q',
+            c => c,
+        },
+    }
+}
+
+/// the elements of a subtree that canonicalization keeps: not the content of mphantom, not annotations, not maction
+/// alternatives (only the selected one is kept; which one is not this check's business)
+fn kept_elements(e: &crate::mml::El) -> Vec<&crate::mml::El> {
+    let mut v = vec![e];
+    if matches!(e.name.as_str(), "mphantom" | "annotation" | "annotation-xml" | "maction") {
+        return v;
+    }
+    for k in &e.kids {
+        if let crate::mml::Node::El(c) = k {
+            if !matches!(c.name.as_str(), "mphantom" | "annotation" | "annotation-xml" | "maction") {
+                v.extend(kept_elements(c));
+            }
+        }
+    }
+    v
+}
+
 fn duplicates(ids: &[String]) -> Vec<String> {
     let mut seen = HashSet::new();
     let mut d = Vec::new();
@@ -49,6 +124,76 @@ impl C09Checker {
         }
         if !ids.is_empty() {
             s.probe("handed_out_id_checked");
+        }
+    }
+
+    /// an author id on a token or a 2-D element stays on the element carrying that token's text
+    fn check_author_ids(&mut self, s: &mut Sess, src: &str, out: &str) {
+        let (Some(input), Some(output)) = (crate::mml::parse(src), crate::mml::parse(out.trim())) else {
+            s.probe("author_id_check_skipped_unparsed");
+            return;
+        };
+        let out_els = output.elements();
+        let out_text = carried_text(&output.text());
+        let mut checked = 0;
+        // what canonicalization keeps: not the content of mphantom, annotations, or the unselected children of maction
+        for e in kept_elements(&input) {
+            let Some(id) = e.attr("id") else { continue };
+            if e.name == "math" {
+                continue;
+            }
+            let two_d = matches!(e.name.as_str(), "mfrac" | "msqrt" | "mroot" | "msup" | "msub" | "msubsup" | "munder" | "mover" | "munderover" | "mmultiscripts" | "mtable" | "mtr" | "mtd" | "mlabeledtr" | "menclose");
+            if !(e.is_token() || two_d) {
+                continue;
+            }
+            // the texts whose identity is unambiguous: identifiers, numbers and words (operators are re-spelled by
+            // canonicalization: "..." -> "…", "~" -> "∼", "_" -> "¯", "''" -> "″", "||" -> "‖")
+            // (a negative number is split into the sign and the number: the number is the text that matters)
+            let words: Vec<String> = if e.is_token() { vec![carried_text(&e.text()).trim_start_matches('\u{2212}').to_string()] } else { kept_elements(e).iter().filter(|t| t.is_token()).map(|t| carried_text(&t.text())).collect() };
+            let words: Vec<String> = words.into_iter().filter(|w| w.chars().any(|c| c.is_alphanumeric()) && w.chars().all(|c| c.is_alphanumeric() || matches!(c, '.' | ',' | '\u{2212}'))).collect();
+            if words.is_empty() {
+                continue;
+            }
+            let holders: Vec<&&crate::mml::El> = out_els.iter().filter(|o| o.attr("id") == Some(id)).collect();
+            if holders.is_empty() {
+                // merged into a neighbour (s,i,n -> sin; 1 , 234 -> 1,234), or a wrapper without scripts: the text lives on
+                // under another id. Gone altogether = the content the id was on was lost
+                let in_one_token = out_els.iter().any(|o| o.is_token() && carried_text(&o.text()).contains(&words[0]));
+                if e.is_token() && out_text.contains(&words[0]) && !in_one_token {
+                    s.violation_g(
+                        "author-id-dropped",
+                        format!("the author id of a <{}> token that was split is on none of the returned elements", e.name),
+                        "author id dropped when its token was split".into(),
+                        format!("id {:?} on <{}>{}</{}>\ninput: {}\nreturned: {}", id, e.name, e.text(), e.name, first_line(src, 600), first_line(&normalize_ids(out).replace('\n', ""), 900)),
+                    );
+                    return;
+                }
+                if e.is_token() && !out_text.contains(&words[0]) {
+                    s.violation_g(
+                        "author-id-lost",
+                        format!("the <{}> token carrying an author id is not in the returned MathML at all (neither the id nor its text)", e.name),
+                        "an element with an author id disappeared with its text".into(),
+                        format!("id {:?} on <{}>{}</{}>\ninput: {}\nreturned: {}", id, e.name, e.text(), e.name, first_line(src, 600), first_line(&normalize_ids(out).replace('\n', ""), 600)),
+                    );
+                    return;
+                }
+                s.probe(if e.is_token() { "author_id_of_token_absent" } else { "author_id_of_2d_absent" });
+                continue;
+            }
+            let have = carried_text(&holders[0].text());
+            if let Some(w) = words.iter().find(|w| !have.contains(w.as_str())) {
+                s.violation_g(
+                    "author-id-moved",
+                    format!("an author id of a <{}> is returned on an element that does not carry its text", e.name),
+                    "author id on an element without its text".into(),
+                    format!("id {:?}: input <{}> with text {:?}; returned on <{}> with text {:?} (missing {:?})\ninput: {}\nreturned: {}", id, e.name, e.text(), holders[0].name, holders[0].text(), w, first_line(src, 600), first_line(&normalize_ids(out).replace('\n', ""), 600)),
+                );
+                return;
+            }
+            checked += 1;
+        }
+        if checked > 0 {
+            s.probe("author_id_on_its_text");
         }
     }
 
@@ -104,6 +249,7 @@ impl Checker for C09Checker {
                     return;
                 }
                 s.probe("ids_unique");
+                self.check_author_ids(s, &src, out);
                 if input_ids.iter().any(|i| normalize_ids(i) != *i) {
                     s.probe("own_output_fed_back");
                 }
@@ -172,7 +318,8 @@ pub fn random_trace(seed: u64) -> Trace {
     }
     let pick_expr = |rng: &mut Rng| -> ExprRef {
         match rng.below(10) {
-            0..=5 => ExprRef::Pool(*rng.pick(ID_EXPRS)),
+            0..=2 => ExprRef::Pool(*rng.pick(ID_EXPRS)),
+            3..=5 => ExprRef::Gen { seed: rng.next_u64() % 1_000_000, ids: *rng.pick(&[0u8, 1, 1, 2, 2]) },
             6 | 7 => ExprRef::Feedback,
             8 => {
                 if rng.chance(0.6) {
